@@ -42,6 +42,17 @@ RULE = ("one operation = one complete key exchange of the real client (NewMTProt
         "Disconnect + CreateConnection, before the first request is issued - 14 fixed histories and random ones "
         "(1 in 8 random exchanges); the exchange against the conformant server must end exactly like a first one "
         "(same oracle), the earlier attempts with their error, the later calls with nil. "
+        "The pool also holds one RSA-2048 key per byte length of the public exponent (1, 2, 3, 4 bytes: 3 / 5 / 17, "
+        "257 or a drawn 2-byte odd number, an odd number above 65537, a drawn 4-byte odd number with the top bit of "
+        "the word set or not; thorough: all of them), built from two primes and checked to be a key pair; the server "
+        "computes its fingerprint from the TL definition and refuses a req_DH_params naming another; one exchange "
+        "per such key, and one with the fingerprints of the keys differing from it in the exponent only / the "
+        "modulus only around it. The request(s) issued after the exchange are part of the client's configuration "
+        "token (ping, ping_delay_disconnect, get_future_salts, help.getConfig, a method with a bytes argument of N "
+        "bytes; up to four one after another): body lengths of every residue mod 16, below and beyond one block "
+        "and 254 bytes; the server opens EVERY encrypted message with its own envelope code, which enforces the "
+        "description's 0..15 bytes of padding after the declared length, and compares it with the request's "
+        "serialisation written by hand. "
         "distinct = distinct operation lines; each is compared with the Lean client machine run against the Lean "
         "ServerSpec (request bodies, keys, salts, hash, flags, stores on both sides) and judged from the server's "
         "own values")
